@@ -11,6 +11,8 @@ CONSTANTS
   EnvShift = 0
   SkipLastBond = FALSE
   DropInnerTag = TRUE
+  Targets <- TargetsThorough
+  CrossedBound = FALSE
   StoreByRef = FALSE
   Emit = TRUE
 INVARIANT WholeCovered
@@ -19,5 +21,6 @@ INVARIANT ExactWhenUntruncated
 INVARIANT NeedIsCross
 INVARIANT EnvConsistent
 INVARIANT SelectUnique
+INVARIANT AroundOK
 INVARIANT EmitJson
 CHECK_DEADLOCK FALSE
